@@ -264,12 +264,38 @@ structure Tab where
   li : List Run := []
   names : List (Nat × String) := []
   noInfo : Bool := false      -- no line_info at all
+  sizeField : Nat := 0        -- file_info[0]: size in bytes of both tables as STORED (unsigned short)
 deriving Repr
+
+/-- width of the two header words of `file_info` (they are elements of the same `unsigned short` array) -/
+def hdrMod : Nat := 2 ^ fileInfoBits
+
+/-- `epilog`: `lnoff = 2 + A_FILE_INFO.current_size / sizeof (short)` (two shorts per segment) -/
+def lnoffOf (segs : Nat) : Nat := 2 + 2 * segs
+/-- `epilog`: `lnsz = lnoff * sizeof (short) + A_LINENUMBERS.current_size` (three bytes per run) -/
+def lnszOf (segs runs : Nat) : Nat := 2 * lnoffOf segs + 3 * runs
+/-- `prog->file_info[0] = (unsigned short) lnsz` -/
+def sizeFieldOf (segs runs : Nat) : Nat := lnszOf segs runs % hdrMod
+
+/-- the walk of `find_line` WITH an end pointer `lns_end = (unsigned char *) file_info + file_info[0]` and the test
+    `if (lns >= lns_end) return 4;` after every `lns += 3` (the shape `Gen.C18.scanBounded` recognises): does it give up?
+    `allowed` = bytes between `line_info` and the end pointer (negative when the stored size has wrapped below the
+    header), `k` = runs walked so far -/
+def givesUp (allowed : Int) : List Run → Int → Int → Bool
+  | [], _, _ => false
+  | r :: rest, off, k =>
+    if scanContinues off r.len then
+      (if 3 * (k + 1) ≥ allowed then true else givesUp allowed rest (off - r.len) (k + 1))
+    else false
+
+/-- bytes between `line_info` and the end pointer computed from the stored size -/
+def Tab.allowed (t : Tab) : Int := (t.sizeField : Int) - 2 * (lnoffOf t.fi.length : Int)
 
 /-- `find_line` (after the fix: the absolute line is read as `unsigned short`) on code offset `off` -/
 def findLine (t : Tab) (off : Int) : Dec :=
   if t.noInfo then .noLine else
   if psizeRejects off t.psize then .noLine else      -- `if (offset > (int) progp->program_size)`, transcribed (Gen)
+  if scanBounded && givesUp t.allowed t.li off 0 then .noLine else   -- end-pointer test, when the source has one (Gen)
   match findRun t.li off with
   | none => .oob
   | some r =>
